@@ -131,4 +131,13 @@ Definition run_C14 (suite : str) (args : list str) : option str :=
           | _ => bs "?args"
           end)
   else if streqb suite (bs "ctcp.table") then Some (show_table_case args)
+  else if streqb suite (bs "ctcp.send") then
+    Some (match args with
+          | kind :: target :: ty :: msg :: _ =>
+              match (if one_byte 82 kind then send_ctcp_reply target ty msg else send_ctcp target ty msg) with
+              | Panic => bs "PANIC"
+              | Ok e => hex (wire_event e)
+              end
+          | _ => bs "?args"
+          end)
   else None.
